@@ -7,6 +7,7 @@ import (
 	"sort"
 	"strconv"
 	"strings"
+	"sync"
 	"time"
 )
 
@@ -150,6 +151,10 @@ type UnitsDefinition struct {
 	sortedMultipliersCache []int64
 	reCache                *regexp.Regexp
 	reSubExpNames          map[string]int
+	// The caches are filled on first use. Schemas, and with them their units, are shared between goroutines
+	// (the ATP server runs every step in its own), so filling them must happen exactly once.
+	sortedMultipliersOnce sync.Once
+	reCacheOnce           sync.Once
 }
 
 func (u *UnitsDefinition) BaseUnit() *UnitDefinition {
@@ -225,7 +230,7 @@ func (u *UnitsDefinition) FormatLongFloat(data float64) string {
 }
 
 func (u *UnitsDefinition) getSortedMultipliersCache() []int64 {
-	if u.sortedMultipliersCache == nil {
+	u.sortedMultipliersOnce.Do(func() {
 		var multipliers []int64
 		for multiplier := range u.MultipliersValue {
 			multipliers = append(multipliers, multiplier)
@@ -234,7 +239,7 @@ func (u *UnitsDefinition) getSortedMultipliersCache() []int64 {
 			return multipliers[i] > multipliers[j]
 		})
 		u.sortedMultipliersCache = multipliers
-	}
+	})
 	return u.sortedMultipliersCache
 }
 
@@ -245,9 +250,7 @@ func (u *UnitsDefinition) parse(data string) (any, error) {
 			Message: "Empty string cannot be parsed as " + u.BaseUnitValue.NameLongPlural(),
 		}
 	}
-	if u.reCache == nil {
-		u.updateReCache()
-	}
+	u.reCacheOnce.Do(u.updateReCache)
 	match := u.reCache.FindStringSubmatch(data)
 	if match == nil {
 		return u.buildUnitParseError(data)
